@@ -110,8 +110,19 @@ pub fn main(args: &[String]) -> i32 {
             match api::compile(&src, Some(d)) {
                 api::Outcome::Ok(sql) => {
                     let (shape, strs) = tokens(d, &sql);
+                    // the same statement as the default options print it (format = true): the same tokens
+                    let (fmt_same, fmt_sql) = match api::compile_formatted(&src, Some(d)) {
+                        api::Outcome::Ok(fsql) => {
+                            let (fshape, fstrs) = tokens(d, &fsql);
+                            // a statement the dialect's tokenizer cannot read either way is the token rule's finding, not the printer's
+                            let both_unreadable = |a: &Vec<String>, b: &Vec<String>| a.first().map_or(false, |x| x.starts_with("TOKENIZE-ERROR")) && b.first().map_or(false, |x| x.starts_with("TOKENIZE-ERROR"));
+                            (both_unreadable(&fshape, &shape) || (fshape == shape && fstrs == strs), fsql)
+                        }
+                        api::Outcome::Err(e) => (false, format!("ERROR {:?}", e.inner.first().map(|m| m.reason.clone()))),
+                        api::Outcome::Panic { msg, .. } => (false, format!("PANIC {msg}")),
+                    };
                     ds.push(json!({"d": d, "compiled": true, "shape_ok": Some(&shape) == refs.get(d), "nstr": strs.len(),
-                                   "val": strs.first().cloned().unwrap_or_default(), "sql": sql}));
+                                   "val": strs.first().cloned().unwrap_or_default(), "sql": sql, "fmt_same": fmt_same, "fmt_sql": fmt_sql}));
                     if d == "sqlite" {
                         match crate::db::query(&conn, &sql) {
                             Ok(r) => {
@@ -126,8 +137,8 @@ pub fn main(args: &[String]) -> i32 {
                         }
                     }
                 }
-                api::Outcome::Err(e) => ds.push(json!({"d": d, "compiled": false, "shape_ok": false, "nstr": 0, "val": [], "sql": e.inner.first().map(|m| m.reason.clone())})),
-                api::Outcome::Panic { msg, .. } => ds.push(json!({"d": d, "compiled": false, "shape_ok": false, "nstr": 0, "val": [], "sql": format!("PANIC {msg}")})),
+                api::Outcome::Err(e) => ds.push(json!({"d": d, "compiled": false, "shape_ok": false, "nstr": 0, "val": [], "sql": e.inner.first().map(|m| m.reason.clone()), "fmt_same": true, "fmt_sql": ""})),
+                api::Outcome::Panic { msg, .. } => ds.push(json!({"d": d, "compiled": false, "shape_ok": false, "nstr": 0, "val": [], "sql": format!("PANIC {msg}"), "fmt_same": true, "fmt_sql": ""})),
             }
         }
         if sqlite.get("istext").is_none() {
